@@ -17,8 +17,13 @@ RULE = ("seeded P-code generator (UOD commands Short/Long/Long2/Other/Drive1 of 
         "Pause/Hold, Simulate/Simulate off, Block/Watch/Alarm/Macro, Wait, thresholds) x scripted FT01 trajectory; for "
         "every method: user Stop and user Restart issued before every tick 1..T of the run (T = ticks to quiescence, "
         "capped at 40), and a method line Stop / Restart inserted before every instruction line (also inside "
-        "Watch/Alarm/Block/Macro bodies). distinct = (method shape hash, kind, tick or insert position); non-trivial = "
-        "a UOD instance was alive, the engine was paused/holding or a tag was simulated when the Stop/Restart began")
+        "Watch/Alarm/Block/Macro bodies); plus, per method, two seeded operator scripts applied between ticks before the "
+        "user Stop/Restart: (a) 1-2 UOD commands started by the operator through execute_control_command_from_user "
+        "(Long/Long2/Other/Drive1/Short, same-name and overlapping pairs included) at a random tick, (b) a force request "
+        "(real handle_forceMsg) on a running method-issued UOD command; Stop and Restart at (up to 8 sampled) ticks of "
+        "the window in which that command is alive (+2). distinct = (method shape hash, kind, tick or insert position, "
+        "operator script); non-trivial = a UOD instance was alive, the engine was paused/holding or a tag was simulated "
+        "when the Stop/Restart began")
 ASSUMPTIONS = [
     "'Stop/Restart completes' is the end of the first tick at which System State reads Stopped after the request",
     "'shown as completed, failed or cancelled in the run log sent when the run ends' is read on the RunStoppedMsg built "
@@ -29,10 +34,16 @@ ASSUMPTIONS = [
     "in particular every instance whose init callback ran",
     "'method runs again from its first line': the first line (always `Base: s` here) gets a started=True node event "
     "within 4 ticks after the Stopped tick of the Restart",
+    "UOD commands started by the operator have no method line: the engine keeps them out of the run log by design, so "
+    "the run-log clause is judged for them only if the run-stopped message does contain a line with their instance id "
+    "(otherwise counted as operator_instances_not_in_final_runlog_unjudged); the instance-held, finalised and "
+    "nothing-executes-after-Stop clauses apply to them like to any other UOD command",
 ]
 REQUIRED = {"stops_completed": 300, "restarts_completed": 300, "stops_with_live_instance": 50, "final_runlog_uod_lines": 200,
             "stops_with_simulated_tag": 10, "stops_while_paused_or_holding": 20, "restart_first_line_checks": 200,
-            "method_issued_stops_completed": 30}
+            "method_issued_stops_completed": 30,
+            "operator_script_stops_completed": 300, "stops_with_live_operator_instance": 150,
+            "operator_instances_finalised_checked": 150, "stops_with_live_forced_instance": 20}
 
 UOD_NAMES = ("Short", "Long", "Long2", "Other", "Fail", "Set1", "SetPlain", "Drive1", "Set2", "Mode")
 
@@ -53,8 +64,9 @@ def gen_method(rnd: random.Random, max_depth=3):
     return {"text": text, "traj": trajectory(rnd, 200), "long_n": rnd.choice([1, 2, 3, 4, 4, 6, 8])}
 
 
-def reference_length(m) -> int:
-    """ticks until nothing happens any more (node events / command callbacks), capped at 40"""
+def reference_length(m, live_ticks: list | None = None) -> int:
+    """ticks until nothing happens any more (node events / command callbacks), capped at 40.
+    live_ticks (out): the tick counts k after which a UOD instance is alive in the undisturbed run."""
     from opv.rigs import engine_rig as R
     rig = R.EngineRig(m["text"], long_n=m["long_n"])
     try:
@@ -66,11 +78,49 @@ def reference_length(m) -> int:
             rig.tick()
             if len(R.TRACE) != n0 or len(rig.cmdlog) != c0:
                 last = rig.k
+            if live_ticks is not None and rig.uod.command_instances:
+                live_ticks.append(rig.k)
             if rig.k - last >= 8 or rig.errors:
                 break
         return min(40, last + 2)
     finally:
         rig.close()
+
+
+OP_NAMES = ("Long", "Long2", "Other", "Drive1", "Long", "Long2", "Other", "Short")
+
+
+def _op_duration(name: str, long_n: int) -> int:
+    return 1 if name == "Short" else long_n + 4 if name == "Drive1" else long_n
+
+
+def operator_scripts(rnd: random.Random, m, T: int, live_ticks: list) -> list[tuple[list, list]]:
+    """[(ops, stop ticks)]: ops = [[k, 'user', uod command name] | [k, 'force', n]] applied when k ticks are done (before
+    the Stop/Restart request of the same tick boundary); stop ticks = the ticks of the window in which the operator's
+    command / the forced command can still be alive (+2), at most 8 of them (seeded sample)."""
+    out = []
+    # (a) commands started by the operator
+    u = rnd.randint(1, T + 1)
+    name = rnd.choice(OP_NAMES)
+    ops = [[u, "user", name]]
+    end = u + _op_duration(name, m["long_n"])
+    if rnd.random() < 0.4:
+        u2 = u + rnd.randint(0, 3)
+        n2 = rnd.choice(OP_NAMES)
+        ops.append([u2, "user", n2])
+        end = max(end, u2 + _op_duration(n2, m["long_n"]))
+    out.append((ops, _sample(rnd, range(u, end + 3), 8)))
+    # (b) a running method-issued command forced by the operator
+    if live_ticks:
+        u = rnd.choice(live_ticks)
+        ops = [[u, "force", rnd.randint(0, 3)]]
+        out.append((ops, _sample(rnd, range(u, u + m["long_n"] + 3), 6)))
+    return out
+
+
+def _sample(rnd: random.Random, ticks, n: int) -> list[int]:
+    ticks = list(ticks)
+    return sorted(rnd.sample(ticks, n)) if len(ticks) > n else ticks
 
 
 def check_case(case, res: Result):
@@ -81,12 +131,17 @@ def check_case(case, res: Result):
 
     CR.install_schedule_hook()
     CR.install_request_hooks()
+    CR.install_cancel_call_hook()
     CR.reset_request_hooks()
     CR.REQS.clear()
+    CR.CANCEL_CALLS.clear()
     kind = case["kind"]
     at = case.get("at")
+    ops = case.get("ops") or []
+    forced: set = set()
     rig = R.EngineRig(case["text"], long_n=case["long_n"])
     sl = CR.StopListener(rig)
+    rq = CR.Requests(rig) if any(o[1] == "force" for o in ops) else None
     viol: list[tuple] = []
     nontrivial = False
     try:
@@ -97,8 +152,11 @@ def check_case(case, res: Result):
         stopped_tick = None
         limit = (at + 10) if at is not None else 70
         while rig.k < limit:
+            for op in ops:
+                if op[0] == rig.k:
+                    _apply_op(rig, rq, op, forced, res)
             if at is not None and rig.k == at:
-                pre = _pre_state(rig)
+                pre = _pre_state(rig, CR.USER_IIDS, forced)
                 if not rig.user(kind):
                     res.count("request_rejected")
                     res.case(None)
@@ -106,7 +164,7 @@ def check_case(case, res: Result):
                 requested_at = rig.k
             rig.hw.inputs["FT01"] = case["traj"][min(rig.k, len(case["traj"]) - 1)]
             if at is None:
-                p0 = _pre_state(rig)
+                p0 = _pre_state(rig, CR.USER_IIDS, forced)
             rig.tick()
             if at is None and requested_at is None and any(q[1] == kind and q[3] != "user" for q in CR.REQS):
                 requested_at = rig.k - 1
@@ -135,6 +193,12 @@ def check_case(case, res: Result):
             res.count("stops_with_simulated_tag")
         if pre["paused"] or pre["holding"]:
             res.count("stops_while_paused_or_holding")
+        if ops:
+            res.count("operator_script_stops_completed")
+        if pre["live_user"]:
+            res.count("stops_with_live_operator_instance")
+        if pre["live_forced"]:
+            res.count("stops_with_live_forced_instance")
         nontrivial = bool(pre["live"] or pre["simulated"] or pre["paused"] or pre["holding"])
 
         # ---------------- invariant at the Stopped tick end
@@ -165,9 +229,13 @@ def check_case(case, res: Result):
         misbooked = CR.misbooked_conclusions(ent["records"]) if ent is not None else set()
 
         cancel_aborted = {f[1] for f in CR.CANCEL_MARK_FAILS if f[1] is not None}
+        # calls in which mark_cancelled raised and the command object was left un-cancelled: the cancellation was aborted
+        # before command.cancel() ran. That is NOT the known shape below (there cancel() has run, only finalize and the
+        # cancelled state are missing) - such instances keep their default mechanism key.
+        never_cancelled = CR.cancel_refused_without_cancelling()
 
         def mech_for(iids, default):
-            if iids and all(i in cancel_aborted for i in iids):
+            if iids and all(i in cancel_aborted and i not in never_cancelled for i in iids):
                 # the Stop's cancel of this instance aborted inside Tracking.mark_cancelled (node.cancel() refused because
                 # the line's cancel flag was already set by the cancel of its previous instance): finalize is delayed to
                 # the next tick and no cancelled state is ever recorded
@@ -182,6 +250,8 @@ def check_case(case, res: Result):
             ids = [c.instance_id for c in rig.uod.command_instances.values()]
             viol.append((mech_for(ids, "C10.uod_instance_held_after_stop"),
                          f"{kind} completed at tick {s} but uod.command_instances still holds {inst}"))
+        res.count("operator_instances_finalised_checked", sum(1 for i in per if i in CR.USER_IIDS and per[i][0][1] == "init"))
+        res.count("forced_instances_finalised_checked", sum(1 for i in per if i in forced))
         for iid in sorted(alive):
             evs = per[iid]
             if True:
@@ -200,8 +270,12 @@ def check_case(case, res: Result):
             for iid, evs in per.items():
                 if evs[0][1] != "init":
                     continue
-                res.count("final_runlog_uod_lines")
                 ln = lines.get(iid)
+                if ln is None and iid in CR.USER_IIDS:
+                    # started by the operator: no method line, kept out of the run log by design (see ASSUMPTIONS)
+                    res.count("operator_instances_not_in_final_runlog_unjudged")
+                    continue
+                res.count("final_runlog_uod_lines")
                 if ln is None:
                     viol.append((mech_for([iid], "C10.executed_uod_command_missing_in_final_runlog"),
                                  f"instance {iid[:8]} of {evs[0][2]} (init tick {evs[0][0]}) has no line in the run-stopped "
@@ -257,8 +331,10 @@ def check_case(case, res: Result):
             if late:
                 viol.append((mech_for([e[3] for e in late], "C10.command_executes_after_stop"), f"UOD command {late[0][2]} ({late[0][3][:8]}) executes at tick {late[0][0]} after the Stop "
                              f"completed at tick {s}"))
-        res.case((shape_hash(case["text"]), kind, at) if nontrivial else None,
-                 sample={"method": case["text"], "kind": kind, "at": at, "stopped_tick": s, "live_at_request": pre["live"]})
+        key = (shape_hash(case["text"]), kind, at) + ((repr(ops),) if ops else ())
+        res.case(key if nontrivial else None,
+                 sample={"method": case["text"], "kind": kind, "at": at, "stopped_tick": s, "live_at_request": pre["live"],
+                         **({"ops": ops} if ops else {})})
     finally:
         rig.close()
     seen = set()
@@ -269,7 +345,7 @@ def check_case(case, res: Result):
         res.violation(mech, msg, case)
 
 
-def _pre_state(rig):
+def _pre_state(rig, user_iids=(), forced_iids=()):
     alive: list[str] = []
     for ev in rig.cmdlog:
         if ev[1] == "init":
@@ -277,7 +353,35 @@ def _pre_state(rig):
         elif ev[1] == "fin" and ev[3] in alive:
             alive.remove(ev[3])
     return {"live": len(alive), "simulated": any(t.simulated for t in rig.e.tags),
-            "paused": rig.e._runstate_paused, "holding": rig.e._runstate_holding}
+            "paused": rig.e._runstate_paused, "holding": rig.e._runstate_holding,
+            "live_user": sum(1 for i in alive if i in user_iids), "live_forced": sum(1 for i in alive if i in forced_iids)}
+
+
+def _apply_op(rig, rq, op, forced: set, res: Result):
+    """One operator action between two ticks (the real entry points: execute_control_command_from_user / handle_forceMsg)."""
+    if op[1] == "user":
+        res.count("operator_commands_accepted" if rig.user(op[2]) else "operator_commands_rejected")
+        return
+    # force the n-th running (started, offered as forcible) UOD command item of the current run log
+    try:
+        items = [i for i in rig.e.tracking.get_runlog().items
+                 if str(i.state) == "started" and i.forcible and i.name.split(":")[0] in UOD_NAMES
+                 and i.id in rig_instance_ids(rig)]
+    except Exception:
+        items = []
+    if not items:
+        res.count("force_script_without_running_uod_item")
+        return
+    it = items[op[2] % len(items)]
+    if rq.force(it.id):
+        forced.add(it.id)
+        res.count("force_requests_accepted")
+    else:
+        res.count("force_requests_rejected")
+
+
+def rig_instance_ids(rig) -> set:
+    return {c.instance_id for c in rig.uod.command_instances.values()}
 
 
 def _conflicts(a: str, b: str) -> bool:
@@ -302,9 +406,16 @@ def run_shard(spec):
     from opv.rigs.cmd_rig import insert_line
     res = Result()
     rnd = random.Random(spec["seed"])
-    for _ in range(spec["n"]):
+    for mi in range(spec["n"]):
         m = gen_method(rnd, spec.get("max_depth", 3))
-        T = reference_length(m)
+        live_ticks: list = []
+        T = reference_length(m, live_ticks)
+        # operator scripts draw from their own stream: the method / Stop sweep of a shard does not depend on them
+        rnd_ops = random.Random(spec["seed"] * 7919 + mi * 31 + 17)
+        for ops, stop_ticks in operator_scripts(rnd_ops, m, T, live_ticks):
+            for t in stop_ticks:
+                for kind in ("Stop", "Restart"):
+                    check_case({**m, "kind": kind, "at": t, "ops": ops}, res)
         for t in range(1, T + 1):
             for kind in ("Stop", "Restart"):
                 check_case({**m, "kind": kind, "at": t}, res)
